@@ -17,7 +17,7 @@ from .core import MISSING
 from .interp import Interp, SpecOpt, is_sym
 from . import lib as L
 
-OBLIG_TIMEOUT_MS = 10000
+OBLIG_TIMEOUT_MS = 20000
 UNIT_BUDGET_S = {"quick": 420, "thorough": 3600}  # wall time per unit before it counts as outside reach
 
 
